@@ -22,7 +22,7 @@ def run(run):
     # take a minute and more), its trace validated against the same specification
     fast = build_driver(run, "mlog_drv_fast", "mlog_drv.c", ["librfn/mlog.c", "librfn/string.c", "librfn/util.c"],
                         cc=["gcc", "-std=gnu11", "-O2", "-g", "-DLIBRFN_VERIF"])
-    tru = exec_script(run, fast, [], "Unread 0\n" + ("Unread 1\n" if full else ""), run.path("unread.ndjson"), "unread", timeout=900)
+    tru = exec_script(run, fast, [], "Unread 0\n" + ("Unread 1\n" if full else "") + "Sweep %d\n" % (4400 if full else 270), run.path("unread.ndjson"), "unread", timeout=900)
     check_trace(run, "unread", "TraceMlog", "TraceMlog.cfg", tru, timeout=900)
     tr = exec_script(run, exe, [], sc, run.path("mlog.ndjson"), "histories", timeout=600)
     check_trace(run, "histories", "TraceMlog", "TraceMlog.cfg", tr, timeout=1500)
